@@ -1,5 +1,53 @@
 // Contracts and proof harnesses for contracts/interchain-token-service/src/contract.rs.
 use super::*;
+// named explicitly: the harness must not depend on which of these the file under verification happens to import
+use axelar_gas_service::AxelarGasServiceClient;
+use axelar_gateway::executable::AxelarExecutableInterface;
+use axelar_gateway::AxelarGatewayMessagingClient;
+use axelar_soroban_std::events::Event;
+use axelar_soroban_std::token::validate_token_metadata;
+use axelar_soroban_std::ttl::extend_instance_ttl;
+use axelar_soroban_std::ttl::extend_persistent_ttl;
+use axelar_soroban_std::address::AddressExt;
+use axelar_soroban_std::ensure;
+use axelar_soroban_std::interfaces;
+use axelar_soroban_std::types::Token;
+use axelar_soroban_std::Ownable;
+use axelar_soroban_std::Upgradable;
+use interchain_token::InterchainTokenClient;
+use soroban_sdk::token;
+use soroban_sdk::token::StellarAssetClient;
+use soroban_sdk::xdr::FromXdr;
+use soroban_sdk::xdr::ToXdr;
+use soroban_sdk::contract;
+use soroban_sdk::contractimpl;
+use soroban_sdk::panic_with_error;
+use soroban_sdk::Address;
+use soroban_sdk::Bytes;
+use soroban_sdk::BytesN;
+use soroban_sdk::Env;
+use soroban_sdk::String;
+use soroban_token_sdk::metadata::TokenMetadata;
+use crate::abi::get_message_type;
+use crate::abi::MessageType as EncodedMessageType;
+use crate::error::ContractError;
+use crate::event::InterchainTokenDeployedEvent;
+use crate::event::InterchainTokenDeploymentStartedEvent;
+use crate::event::InterchainTokenIdClaimedEvent;
+use crate::event::InterchainTransferReceivedEvent;
+use crate::event::InterchainTransferSentEvent;
+use crate::event::TrustedChainRemovedEvent;
+use crate::event::TrustedChainSetEvent;
+use crate::executable::InterchainTokenExecutableClient;
+use crate::interface::InterchainTokenServiceInterface;
+use crate::storage_types::DataKey;
+use crate::storage_types::TokenIdConfigValue;
+use crate::token_handler;
+use crate::types::DeployInterchainToken;
+use crate::types::HubMessage;
+use crate::types::InterchainTransfer;
+use crate::types::Message;
+use crate::types::TokenManagerType;
 use crate::abi::verif::{
     any_error, get_message_type_contract, hub_decode_contract, hub_encode_contract, spec_encoding, symbolic_message, words_of_hub, words_of_message, DECODED, ENCODED, TYPE_OF,
 };
